@@ -631,7 +631,10 @@ impl<'a> Mutator<'a> {
                     for (_, v) in members.iter_mut() {
                         self.mutate(x, v, rng);
                     }
-                    if self.cfg.badkey && self.hit(rng) {
+                    // one to three unparsable keys (several in one object: what is reported for
+                    // them must not depend on their order)
+                    let n_bad = if self.cfg.badkey && self.hit(rng) { 1 + rng.below(3).saturating_sub(1) + rng.below(2) } else { 0 };
+                    for _ in 0..n_bad {
                         let long_non_ascii: String = "é".repeat(40);
                         let bad = match k {
                             KeyTy::Str => None,
@@ -778,7 +781,7 @@ impl<'a> Mutator<'a> {
                             let v = rng.pick(variants);
                             let key = effective_key(&v.ident, &v.rename, *rename_all);
                             *doc = match rng.below(3) {
-                                0 => Doc::Str(rng.pick(&["NoSuchVariant", "Énumération_inconnue_très_longue", "abcéx"]).to_string()),
+                                0 => Doc::Str(rng.pick(&["NoSuchVariant", "Énumération_inconnue_très_longue", "abcéx", " sideways ", "NoSuchVariant\t", "  x"]).to_string()),
                                 1 => Doc::Str(near_misses(&key, &v.ident, rng)),
                                 _ => Doc::Str(String::new()),
                             };
@@ -824,7 +827,10 @@ impl<'a> Mutator<'a> {
 
     fn arity(&mut self, items: &mut Vec<Doc>, rng: &mut Rng) {
         if self.cfg.arity && self.hit(rng) {
-            if items.is_empty() || rng.chance(1, 2) {
+            if !items.is_empty() && rng.chance(1, 6) {
+                // nothing at all where N elements are due
+                items.clear();
+            } else if items.is_empty() || rng.chance(1, 2) {
                 items.push(random_scalar(rng));
             } else {
                 items.pop();
